@@ -130,7 +130,7 @@ fn check_cmd(args: &[String]) -> i32 {
     "C17" => {
       CheckSpec {
         property: property.clone(), world: "W5".into(), tier: tier.clone(), seed, level: "exploration".into(),
-        rule: "W5 state-machine world: one real Interpreter per run (fresh thread, PRNG-chosen hash seed, trace on) given a generated machine — either an array-pattern machine (a Scan state over a [u64] vector with pair, head/rest and empty-vector arms, with and without guards, consuming or not) or 1-4 states, 1-3 u64 payload fields, per state a direct transition or 1-4 guarded branches (comparisons of fields with constants or other fields, several of which may hold at once, usually a final wildcard), payload updates (field, constant, field +/- constant, field +/- field), self-loops and cycles, inputs from {0,1,2,3,4,5,7,10} — and 2-5 invocations in the same session, each with a PRNG-chosen transition budget (Interpreter.max_steps in {1,2,3,5,8,13,30,100,1000}). Ill-formed variants: a transition to an undeclared state, a transition to a declared state that has no arm, an argument of the wrong kind, a wrong argument count. Oracle: a reference simulation of the transition system (checked u64 arithmetic, cycle detection): result value, the sequence of (state, payload) parsed from the recorded [trace][fsm][step] events, the limit error for machines that never terminate (bounded liveness in steps), rejection of every ill-formed variant, and the next invocation after a failed or limited one is checked like any other. A run is non-trivial if at least one well-formed invocation terminated within its budget or was stopped by the limit; distinct = digest over machine text, invocations, budgets and outcomes.".into(),
+        rule: "W5 state-machine world: one real Interpreter per run (fresh thread, PRNG-chosen hash seed, trace on) given a generated machine — either an array-pattern machine (a Scan state over a [u64] vector with pair, head/rest and empty-vector arms, with and without guards, consuming or not) or 1-4 states, 1-3 u64 payload fields, per state a direct transition or 1-4 guarded branches (comparisons of fields with constants or other fields, several of which may hold at once, usually a final wildcard), payload updates (field, constant, field +/- constant, field +/- field), self-loops and cycles, inputs from {0,1,2,3,4,5,7,10} — and 2-5 invocations in the same session, each with a PRNG-chosen transition budget (Interpreter.max_steps in {1,2,3,5,8,13,30,100,1000}). Ill-formed variants: a transition to an undeclared state, a transition to a declared state that has no arm, an argument of the wrong kind, a wrong argument count. Oracle: a reference simulation of the transition system (checked u64 arithmetic, cycle detection): result value, the sequence of (state, payload) parsed from the recorded [trace][fsm][step] events, the limit error for machines that never terminate (bounded liveness in steps), rejection of every ill-formed variant, and the next invocation after a failed or limited one is checked like any other; an invocation that has not answered after 8 s of wall clock (a run takes milliseconds) is reported as a machine that was not stopped, provided the replay in a fresh process exceeds the bound again. A run is non-trivial if at least one well-formed invocation terminated within its budget or was stopped by the limit; distinct = digest over machine text, invocations, budgets and outcomes.".into(),
         worker_args: vec!["worker".into(), "--world".into(), "W5".into(), "--seed".into(), seed.to_string()],
         runs: if thorough { 600_000 } else { 40_000 },
         budget: Duration::from_secs(if thorough { 480 } else { 50 }),
@@ -205,6 +205,8 @@ fn check_cmd(args: &[String]) -> i32 {
   if let Some(b) = budget_override { spec.budget = Duration::from_secs(b); }
   if let Some(b) = std::env::var("VERIF_BUDGET_S").ok().and_then(|s| s.parse::<u64>().ok()) { spec.budget = Duration::from_secs(b); }
   if let Some(e) = arg(args, "--evidence") { spec.evidence = PathBuf::from(e); }
+  // W5 runs take milliseconds and decide hangs themselves (w5::HANG_DEADLINE_S); the supervisor's backstop can be short
+  if spec.world == "W5" { supervisor::set_watchdog(30); }
   drive(spec)
 }
 
@@ -218,6 +220,23 @@ fn replay_cmd(args: &[String]) -> i32 {
   node::install_silent_panic_hook();
   if flag(args, "--in-process") { supervisor::limit_address_space(16 << 30); alloc::set_hard_cap(2 << 30); }
   let want = j["signature"].as_str().or_else(|| j["violation"]["signature"].as_str()).unwrap_or("").to_string();
+  if let Some(w) = j["watchdog_s"].as_u64() { supervisor::set_watchdog(w); }
+  if j["regenerate"].as_bool() != Some(true) && !flag(args, "--in-process") {
+    // execute in a child under the address-space limit and a wall-clock bound, so that an abort or
+    // an endless loop inside Mech is observed, not suffered
+    return match supervisor::child_with_timeout(&["replay".to_string(), path.to_string(), "--in-process".to_string()], 120) {
+      Ok((code, out, err, timed_out)) => {
+        print!("{}", out);
+        if timed_out { println!("REPRODUCED host-aborted|process|watchdog (no answer within 120 s)"); return 1; }
+        match code {
+          Some(c @ (0 | 1)) => c,
+          Some(2) => { eprint!("{}", err); 2 }
+          _ => { println!("REPRODUCED host-aborted|process|{} ({})", if err.contains("ALLOC-REFUSED") { "allocation-refused" } else { "died" }, node::trunc(err.trim(), 200)); 1 }
+        }
+      }
+      Err(e) => { eprintln!("cannot spawn: {}", e); 2 }
+    };
+  }
   if j["regenerate"].as_bool() == Some(true) {
     // crash replays: re-run (seed, run) through the generator in a fresh worker
     let wargs: Vec<String> = j["worker_args"].as_array().map(|a| a.iter().filter_map(|x| x.as_str().map(|s| s.to_string())).collect()).unwrap_or_default();
@@ -256,25 +275,9 @@ fn replay_cmd(args: &[String]) -> i32 {
       }
     }
     Some("W3") => {
-      if flag(args, "--in-process") {
-        return match w3::replay_in_process(&j) {
-          Some(sig) => { println!("REPRODUCED {}", sig); 1 }
-          None => { println!("not reproduced"); 0 }
-        };
-      }
-      // feed in a child process under the address-space limit, so that an abort is observed, not suffered
-      let exe = std::env::current_exe().unwrap();
-      match std::process::Command::new(exe).arg("replay").arg(path).arg("--in-process").output() {
-        Ok(o) => {
-          let out = String::from_utf8_lossy(&o.stdout).to_string();
-          let err = String::from_utf8_lossy(&o.stderr).to_string();
-          print!("{}", out);
-          match o.status.code() {
-            Some(c @ (0 | 1)) => c,
-            _ => { println!("REPRODUCED host-aborted|process|{} ({} ; {})", if err.contains("ALLOC-REFUSED") { "allocation-refused" } else { "died" }, o.status, node::trunc(err.trim(), 200)); 1 }
-          }
-        }
-        Err(e) => { eprintln!("cannot spawn: {}", e); 2 }
+      match w3::replay_in_process(&j) {
+        Some(sig) => { println!("REPRODUCED {}", sig); 1 }
+        None => { println!("not reproduced"); 0 }
       }
     }
     w => { eprintln!("replay: unknown world {:?}", w); 2 }
